@@ -92,6 +92,10 @@ pub struct PeerState {
     pub reply_delay_ms: AtomicUsize,
     /// typed by the user right behind the next DA1 answer, in the same write (consumed)
     pub reply_suffix: Mutex<Vec<u8>>,
+    /// typed by the user directly after the next DA1 answer, in a write of its own (consumed)
+    pub reply_followup: Mutex<Vec<u8>>,
+    /// number of such follow-up writes that have been completed
+    pub followup_written: AtomicUsize,
     /// the master side got EIO/hangup
     pub hangup: AtomicBool,
     /// answer the size request `CSI 18 t CSI 14 t` with (rows, cols, pixel height, pixel width)
@@ -119,6 +123,8 @@ impl Peer {
             cpr_col: AtomicUsize::new(0),
             reply_delay_ms: AtomicUsize::new(0),
             reply_suffix: Mutex::new(Vec::new()),
+            reply_followup: Mutex::new(Vec::new()),
+            followup_written: AtomicUsize::new(0),
             hangup: AtomicBool::new(false),
             size_reply: Mutex::new(None),
             size_answered: AtomicUsize::new(0),
@@ -235,6 +241,13 @@ impl Peer {
                         st.da1_answered.fetch_add(1, Ordering::SeqCst);
                         unsafe {
                             libc::write(master, reply.as_ptr() as *const libc::c_void, reply.len());
+                        }
+                        let followup = std::mem::take(&mut *st.reply_followup.lock().unwrap());
+                        if !followup.is_empty() {
+                            unsafe {
+                                libc::write(master, followup.as_ptr() as *const libc::c_void, followup.len());
+                            }
+                            st.followup_written.fetch_add(1, Ordering::SeqCst);
                         }
                     }
                     let pause = st.pause_us.load(Ordering::Relaxed);
